@@ -163,6 +163,16 @@ pub fn c10(cfg: &J) {
             })
         })
         .collect();
+    // other threads that only request a flush and wait for it (two waiters on one worker)
+    let flushers: Vec<_> = (0..cfg["flushers"].as_u64().unwrap_or(0))
+        .map(|_| {
+            let s = sink.clone();
+            thread::spawn(move || {
+                let dummy: crate::rec::Log = Arc::new(Mutex::new(Vec::new()));
+                let ((), _) = wait_with_snapshot(s.flush(), &dummy);
+            })
+        })
+        .collect();
     let mut sent_before_flush: Vec<(String, u64)> = Vec::new();
     for (k, w) in &main_sends {
         sink.send(call(k, *w));
@@ -194,7 +204,7 @@ pub fn c10(cfg: &J) {
             }
         }
     }
-    for t in threads {
+    for t in threads.into_iter().chain(flushers) {
         t.join().unwrap();
     }
     drop(sink); // last handle
